@@ -1,9 +1,10 @@
-(** M-TYPE, PostgreSQL (partial): type classes and FormatType / timeAlias
-    (sql/postgres/convert.go). ParseType (parseColumn, columnType, the reArray /
-    reInterval regexes) and the registry instantiation (typeSpec, formatTime,
-    interval ToSpec/FromSpec, enum/domain/array column conversion) are NOT
-    modelled yet: for PostgreSQL only FormatType is tied to the Go code; the
-    rest is covered by the property oracle. No proofs here. *)
+(** M-TYPE, PostgreSQL: type classes, FormatType / timeAlias and ParseType
+    (sql/postgres/convert.go: ParseType, columnType, parseColumn, parseCharParts,
+    parseBitParts, arrayType with a hand matcher for reArray, intervalField with a
+    hand matcher for reInterval). The registry instantiation (typeSpec, formatTime,
+    interval ToSpec/FromSpec, enum/domain/array column conversion) is NOT modelled
+    (property oracle only). ASCII model: (?i) folds only A-Z/a-z (Go also folds
+    U+017F to S), strings.TrimSpace / \s see one-byte spaces only. No proofs here. *)
 From Coq Require Import String.
 From Coq Require Import List NArith ZArith Bool.
 From Atlas Require Import Base.Bytes Hcl.Str Hcl.RegistryDefs Hcl.Registry.
@@ -134,11 +135,334 @@ Definition FormatType (t : ty) : res bytes :=
   | UnsupportedType _ => Err
   end.
 
-Definition obs_fmt_pg (t : ty) : bytes :=
-  bs "fmt" ++ match FormatType t with
-              | Ok s => bs "=ok:" ++ hex s
-              | Err => bs "=err"
-              | Panic => bs "=panic"
-              end.
+(** ** ParseType (sql/postgres/convert.go) *)
+
+(** regexp \s of Go/RE2: [\t\n\f\r ] (no \v) *)
+Definition re_space (c : N) : bool := (c =? 9) || (c =? 10) || (c =? 12) || (c =? 13) || (c =? 32).
+Definition is_lower (c : N) : bool := (97 <=? c) && (c <=? 122).
+Definition upper_c (c : N) : N := if is_lower c then c - 32 else c.
+
+(** *** reArray (written here with "STAR" for the star operator, because star-paren ends a Coq comment):
+      (?i)(.+?)(( +ARRAY( STAR\[[ \d]STAR] STAR)STAR)+|( STAR\[[ \d]STAR] STAR)+)$
+    Hand matcher. The part after group 1 is a regular language over
+    { ' ', '[', ']', digits, A R Y (either case) }:  X+ | Y+  with
+      Y = " *" "[" "[ 0-9]*" "]" " *"      X = " +" "ARRAY" Y*
+    recognised by the automaton below (X-states for the first alternative,
+    Y-states for the second). *)
+Inductive ast := X0 | X1 | XA | XAR | XARR | XARRA | X2 | X3 | X4 | X5 | X5s | Y0 | Y1 | Y2.
+
+Definition astep (q : ast) (c : N) : option ast :=
+  let sp := c =? 32 in let lb := c =? 91 in let rb := c =? 93 in
+  let a := upper_c c =? 65 in let r := upper_c c =? 82 in let y := upper_c c =? 89 in
+  match q with
+  | X0 => if sp then Some X1 else None
+  | X1 => if sp then Some X1 else if a then Some XA else None
+  | XA => if r then Some XAR else None
+  | XAR => if r then Some XARR else None
+  | XARR => if a then Some XARRA else None
+  | XARRA => if y then Some X2 else None
+  | X2 => if sp then Some X3 else if lb then Some X4 else None
+  | X3 => if sp then Some X3 else if lb then Some X4 else if a then Some XA else None
+  | X4 => if sp || is_digit c then Some X4 else if rb then Some X5 else None
+  | X5 => if sp then Some X5s else if lb then Some X4 else None
+  | X5s => if sp then Some X5s else if lb then Some X4 else if a then Some XA else None
+  | Y0 => if sp then Some Y0 else if lb then Some Y1 else None
+  | Y1 => if sp || is_digit c then Some Y1 else if rb then Some Y2 else None
+  | Y2 => if sp then Some Y2 else if lb then Some Y1 else None
+  end.
+
+Definition aacc (q : ast) : bool :=
+  match q with X2 | X5 | X5s | Y2 => true | _ => false end.
+
+Fixpoint arun (q : ast) (s : bytes) : bool :=
+  match s with
+  | [] => aacc q
+  | c :: s' => match astep q c with Some q' => arun q' s' | None => false end
+  end.
+
+(** s is in the language of the second top-level group of reArray *)
+Definition array_suffix (s : bytes) : bool := arun X0 s || arun Y0 s.
+
+(** leftmost match, lazy group 1 ('.' does not match \n): [g] = group 1 so far, reversed.
+    A start position before a newline can never reach the end of the text. *)
+Fixpoint arr_scan (g : bytes) (s : bytes) : option bytes :=
+  match s with
+  | [] => None
+  | c :: s' =>
+      if c =? 10 then arr_scan [] s'
+      else if array_suffix s' then Some (rev (c :: g))
+      else arr_scan (c :: g) s'
+  end.
+
+(** arrayType: (strings.TrimSpace(matches[1]), true) *)
+Definition arrayType (t : bytes) : option bytes :=
+  match arr_scan [] t with Some g => Some (trim_space g) | None => None end.
+
+(** *** reInterval (STAR as above):
+      (?i)(?:INTERVAL\sSTAR)?(YEAR|MONTH|DAY|HOUR|MINUTE|SECOND|YEAR TO MONTH|...|MINUTE TO SECOND)?\sSTAR(?:\(([0-6])\))?$
+    unanchored on the left: leftmost start; everything is optional, so the empty match at the end always exists. *)
+Definition interval_fields : list bytes := map bs
+  ["YEAR"; "MONTH"; "DAY"; "HOUR"; "MINUTE"; "SECOND"; "YEAR TO MONTH"; "DAY TO HOUR"; "DAY TO MINUTE";
+   "DAY TO SECOND"; "HOUR TO MINUTE"; "HOUR TO SECOND"; "MINUTE TO SECOND"]%string.
+
+(** (?i) prefix test against an upper-case ASCII pattern *)
+Fixpoint has_prefix_ci (s p : bytes) : bool :=
+  match p, s with
+  | [], _ => true
+  | x :: p', y :: s' => (upper_c y =? x) && has_prefix_ci s' p'
+  | _ :: _, [] => false
+  end.
+
+(** the tail: white space, an optional parenthesised digit 0-6 (group 2), end of text: None = no match, Some g2 = match with group 2 *)
+Definition iv_tail (s : bytes) : option (option N) :=
+  match drop_while re_space s with
+  | [] => Some None
+  | [l; d; r] => if (l =? 40) && (r =? 41) && (48 <=? d) && (d <=? 54) then Some (Some d) else None
+  | _ => None
+  end.
+
+(** the alternation, in order (first alternative for which the rest matches) *)
+Fixpoint iv_alts (alts : list bytes) (s : bytes) : option (bytes * option N) :=
+  match alts with
+  | [] => None
+  | a :: alts' =>
+      if has_prefix_ci s a then
+        match iv_tail (skipn (length a) s) with
+        | Some d => Some (firstn (length a) s, d)
+        | None => iv_alts alts' s
+        end
+      else iv_alts alts' s
+  end.
+
+Definition iv_field_tail (s : bytes) : option (bytes * option N) :=
+  match iv_alts interval_fields s with
+  | Some r => Some r
+  | None => match iv_tail s with Some d => Some ([], d) | None => None end
+  end.
+
+(** a match starting exactly here *)
+Definition iv_at (s : bytes) : option (bytes * option N) :=
+  if has_prefix_ci s (bs "INTERVAL") then
+    match iv_field_tail (drop_while re_space (skipn 8 s)) with
+    | Some r => Some r
+    | None => iv_field_tail s
+    end
+  else iv_field_tail s.
+
+(** FindStringSubmatch: leftmost start; (matches[1], matches[2]). Always matches (empty match at the end). *)
+Fixpoint reInterval (s : bytes) : bytes * option N :=
+  match iv_at s with
+  | Some r => r
+  | None => match s with [] => ([], None) | _ :: s' => reInterval s' end
+  end.
+
+(** intervalField *)
+Definition intervalField (t : bytes) : option bytes :=
+  match fst (reInterval t) with [] => None | f => Some f end.
+
+(** columnDesc (the fields ParseType can reach) *)
+Record columnDesc := mkDesc {
+  c_typ : bytes; c_fmtype : bytes; c_size : Z; c_typtype : bytes;
+  c_precision : Z; c_timePrecision : option Z; c_scale : Z; c_interval : bytes }.
+
+Definition desc0 (typ : bytes) : columnDesc := mkDesc typ [] 0%Z [] 0%Z None 0%Z [].
+
+Definition parse_int (s : bytes) : res Z := match atoi s with Some z => Ok z | None => Err end.
+
+(** parseCharParts *)
+Definition parseCharParts (parts : list bytes) (c : columnDesc) : res columnDesc :=
+  let j := join [32] parts in
+  let '(typ, parts) :=
+    if has_prefix j (bs "varchar") then (bs "varchar", skipn 1 parts)
+    else if has_prefix j (bs "character varying") then (bs "character varying", skipn 2 parts)
+    else (c_typ c, skipn 1 parts) in
+  match parts with
+  | [] => Ok (mkDesc typ (c_fmtype c) (c_size c) (c_typtype c) (c_precision c) (c_timePrecision c) (c_scale c) (c_interval c))
+  | p :: _ => bind (parse_int p) (fun size =>
+      Ok (mkDesc typ (c_fmtype c) size (c_typtype c) (c_precision c) (c_timePrecision c) (c_scale c) (c_interval c)))
+  end.
+
+(** parseBitParts *)
+Definition parseBitParts (parts : list bytes) (c : columnDesc) : res columnDesc :=
+  let set typ size := mkDesc typ (c_fmtype c) size (c_typtype c) (c_precision c) (c_timePrecision c) (c_scale c) (c_interval c) in
+  match parts with
+  | [_] => Ok (set (c_typ c) 1%Z)
+  | _ :: parts1 =>
+      let '(typ, parts2) :=
+        match parts1 with
+        | p :: r => if bytes_eqb p (bs "varying") then (bs "bit varying", r) else (c_typ c, parts1)
+        | [] => (c_typ c, parts1)
+        end in
+      match parts2 with
+      | [] => Ok (set typ (c_size c))
+      | p :: r =>
+          match parse_int p with
+          | Ok size => Ok (set typ size)
+          | _ => match r with
+                 | [] => Panic   (* the error text reads parts[1] of the already shortened slice: index out of range *)
+                 | _ => Err
+                 end
+          end
+      end
+  | [] => Panic
+  end.
+
+(** parseColumn, after strings.FieldsFunc *)
+Definition parseParts (s : bytes) (parts : list bytes) : res columnDesc :=
+    match parts with
+    | [] => Panic                         (* parts[0]: index out of range *)
+    | p0 :: rest =>
+        let c := desc0 p0 in
+        let is n := bytes_eqb p0 (bs n) in
+        if is "varchar"%string || is "character varying"%string || is "char"%string || is "character"%string then
+          parseCharParts parts c
+        else if is "decimal"%string || is "numeric"%string || is "float"%string then
+          bind (match rest with p1 :: _ => parse_int p1 | [] => Ok 0%Z end) (fun prec =>
+          bind (match rest with _ :: p2 :: _ => parse_int p2 | _ => Ok 0%Z end) (fun scale =>
+          Ok (mkDesc p0 [] 0%Z [] prec None scale [])))
+        else if is "bit"%string then parseBitParts parts c
+        else if is "double precision"%string || is "float8"%string then Ok (mkDesc p0 [] 0%Z [] 53%Z None 0%Z [])
+        else if is "real"%string || is "float4"%string then Ok (mkDesc p0 [] 0%Z [] 24%Z None 0%Z [])
+        else if is "time"%string || is "timetz"%string || is "timestamp"%string || is "timestamptz"%string then
+          match rest with
+          | p1 :: rest2 =>
+              if existsb is_digit p1 then
+                bind (parse_int p1) (fun i =>
+                Ok (mkDesc (timeAlias (join [32] (p0 :: rest2))) [] 0%Z [] 0%Z (Some i) 0%Z []))
+              else Ok (mkDesc (timeAlias s) [] 0%Z [] 0%Z (Some defaultTimePrecision) 0%Z [])
+          | [] => Ok (mkDesc (timeAlias s) [] 0%Z [] 0%Z (Some defaultTimePrecision) 0%Z [])
+          end
+        else if is "interval"%string then
+          let '(m1, m2) := reInterval s in
+          Ok (mkDesc p0 [] 0%Z [] 0%Z (match m2 with Some d => Some (Z.of_N (d - 48)) | None => None end) 0%Z m1)
+        else Ok (desc0 s)
+    end.
+
+(** parseColumn *)
+Definition parseColumn (s : bytes) : res columnDesc :=
+  match s with
+  | [] => Err
+  | _ :: _ => parseParts s (fields_func type_sep s)
+  end.
+
+Definition int_names := map bs ["bigint"; "int8"; "int"; "integer"; "int4"; "smallint"; "int2"; "int64"; "xid"; "xid8"]%string.
+Definition string_names := map bs ["character"; "char"; "character varying"; "varchar"; "text"; "bpchar"; "name"]%string.
+Definition network_names := map bs ["cidr"; "inet"; "macaddr"; "macaddr8"]%string.
+Definition spatial_names := map bs ["circle"; "line"; "lseg"; "box"; "path"; "polygon"; "point"; "geometry"]%string.
+Definition time_names := map bs ["time"; "time without time zone"; "timetz"; "time with time zone"; "timestamp";
+  "timestamptz"; "timestamp with time zone"; "timestamp without time zone"]%string.
+Definition float_names := map bs ["real"; "double precision"; "float"; "float4"; "float8"]%string.
+Definition serial_names := map bs ["smallserial"; "serial"; "bigserial"; "serial2"; "serial4"; "serial8"]%string.
+Definition pseudo_names := map bs ["any"; "anyelement"; "anyarray"; "anynonarray"; "anyenum"; "internal"; "record";
+  "trigger"; "event_trigger"; "void"; "unknown"]%string.
+
+(** columnType; [rec] = ParseType for the element type of an array *)
+Definition columnType (rec : bytes -> res ty) (c : columnDesc) : res ty :=
+  let t := c_typ c in
+  let l := to_lower t in
+  let isl n := bytes_eqb l (bs n) in
+  let prec := match c_timePrecision c with Some p => p | None => defaultTimePrecision end in
+  let typ : res ty :=
+    if mem_b l int_names then Ok (IntegerType t)
+    else if isl "bit"%string || isl "bit varying"%string then Ok (BitType t (c_size c))
+    else if isl "bool"%string || isl "boolean"%string then Ok (BoolType t)
+    else if isl "bytea"%string then Ok (BinaryType t)
+    else if mem_b l string_names then
+      let t := if bytes_eqb t (bs "character") && Z.eqb (c_size c) 0 && bytes_eqb (c_fmtype c) (bs "bpchar")
+               then bs "bpchar" else t in
+      Ok (StringType t (c_size c))
+    else if mem_b l network_names then Ok (NetworkType t)
+    else if mem_b l spatial_names then Ok (SpatialType t)
+    else if isl "date"%string then Ok (TimeType t None)
+    else if mem_b l time_names then Ok (TimeType t (Some prec))
+    else if isl "interval"%string then
+      match c_interval c with
+      | [] => Ok (IntervalType t [] (Some prec))
+      | iv => match intervalField iv with
+              | Some f => Ok (IntervalType t f (Some prec))
+              | None => Ok (UnsupportedType iv)
+              end
+      end
+    else if mem_b l float_names then Ok (FloatType t (c_precision c))
+    else if isl "json"%string || isl "jsonb"%string then Ok (JSONType t)
+    else if isl "money"%string then Ok (CurrencyType t)
+    else if isl "decimal"%string || isl "numeric"%string then Ok (DecimalType t (c_precision c) (c_scale c))
+    else if mem_b l serial_names then Ok (SerialType t)
+    else if isl "uuid"%string then Ok (UUIDType t)
+    else if isl "xml"%string then Ok (XMLType t)
+    else if isl "array"%string then
+      match arrayType (c_fmtype c) with
+      | Some e => bind (rec e) (fun _ => Ok (ArrayType (c_fmtype c)))
+      | None => Ok (ArrayType (c_fmtype c))
+      end
+    else if isl "tsvector"%string || isl "tsquery"%string then Ok (TextSearchType t)
+    else if mem_b l range_names then Ok (RangeType t)
+    else if mem_b l oid_names then Ok (OIDType t)
+    else if mem_b l pseudo_names then Ok (PseudoType t)
+    else Ok (UserDefinedType (match c_fmtype c with [] => t | ft => ft end)) in
+  (* the early return of the interval case skips the typtype switch *)
+  match typ with
+  | Ok (UnsupportedType _) => typ
+  | Ok _ => if bytes_eqb (c_typtype c) (bs "d") || bytes_eqb (c_typtype c) (bs "e")
+            then Ok (UserDefinedType (c_fmtype c)) else typ
+  | _ => typ
+  end.
+
+(** ParseType; the recursion (array element type) is on a strictly shorter string:
+    fuel = S (length typ) is never exhausted (out of fuel = Err). *)
+Fixpoint ParseType_f (fuel : nat) (typ : bytes) : res ty :=
+  match fuel with
+  | O => Err
+  | S f =>
+      let d := match arrayType typ with
+               | Some t => Ok (mkDesc (bs "array") (t ++ bs "[]") 0%Z [] 0%Z None 0%Z [])
+               | None => parseColumn typ
+               end in
+      bind d (fun c => bind (columnType (ParseType_f f) c) (fun t =>
+      Ok (match t with UnsupportedType T => UserDefinedType T | _ => t end)))
+  end.
+Definition ParseType (typ : bytes) : res ty := ParseType_f (S (length typ)) typ.
+
+(** canonical text = harness showType (exported, non-embedded fields in declaration order;
+    fields the model does not carry are the constants ParseType leaves there) *)
+Definition show_opt (o : option Z) : bytes := match o with None => bs "nil" | Some z => itoa z end.
+Definition show1 (cls : string) (T : bytes) : bytes := bs cls ++ bs "{T=" ++ hex T ++ bs "}".
+Definition show_ty (t : ty) : bytes :=
+  match t with
+  | ArrayType T => show1 "postgres.ArrayType" T
+  | BitType T n => bs "postgres.BitType{T=" ++ hex T ++ bs ",Len=" ++ itoa n ++ bs "}"
+  | BoolType T => show1 "schema.BoolType" T
+  | BinaryType T => bs "schema.BinaryType{T=" ++ hex T ++ bs ",Size=nil}"
+  | CurrencyType T => show1 "postgres.CurrencyType" T
+  | CompositeType T => bs "postgres.CompositeType{T=" ++ hex T ++ bs ",Attrs=[]}"
+  | DomainType T => bs "postgres.DomainType{T=" ++ hex T ++ bs "}"
+  | EnumType T => bs "schema.EnumType{T=" ++ hex T ++ bs ",Values=[]}"
+  | IntegerType T => bs "schema.IntegerType{T=" ++ hex T ++ bs ",Unsigned=0,Attrs=[]}"
+  | IntervalType T F p => bs "postgres.IntervalType{T=" ++ hex T ++ bs ",F=" ++ hex F ++ bs ",Precision=" ++ show_opt p ++ bs "}"
+  | StringType T n => bs "schema.StringType{T=" ++ hex T ++ bs ",Size=" ++ itoa n ++ bs ",Attrs=[]}"
+  | TimeType T p => bs "schema.TimeType{T=" ++ hex T ++ bs ",Precision=" ++ show_opt p ++ bs ",Scale=nil,Attrs=[]}"
+  | FloatType T p => bs "schema.FloatType{T=" ++ hex T ++ bs ",Unsigned=0,Precision=" ++ itoa p ++ bs "}"
+  | DecimalType T p s => bs "schema.DecimalType{T=" ++ hex T ++ bs ",Precision=" ++ itoa p ++ bs ",Scale=" ++ itoa s ++ bs ",Unsigned=0}"
+  | SerialType T => bs "postgres.SerialType{T=" ++ hex T ++ bs ",Precision=0,SequenceName=-}"
+  | JSONType T => show1 "schema.JSONType" T
+  | UUIDType T => show1 "schema.UUIDType" T
+  | SpatialType T => show1 "schema.SpatialType" T
+  | NetworkType T => bs "postgres.NetworkType{T=" ++ hex T ++ bs ",Len=0}"
+  | RangeType T => show1 "postgres.RangeType" T
+  | OIDType T => show1 "postgres.OIDType" T
+  | TextSearchType T => show1 "postgres.TextSearchType" T
+  | UserDefinedType T => bs "postgres.UserDefinedType{T=" ++ hex T ++ bs ",C=-}"
+  | XMLType T => show1 "postgres.XMLType" T
+  | PseudoType T => show1 "postgres.PseudoType" T
+  | UnsupportedType T => show1 "schema.UnsupportedType" T
+  end.
+
+Definition obs_fmt_pg := obs_fmt ty FormatType ParseType show_ty.
+
+(** ParseType of a raw column type text (tie of the matchers on arbitrary input) *)
+Definition obs_raw_pg (raw : bytes) : bytes :=
+  let p := ParseType raw in
+  show_res (bs "parse") show_ty p ++ [32] ++
+  match p with Ok t => show_res (bs "fmt") hex (FormatType t) | _ => bs "fmt=-" end.
 
 End Pg.
